@@ -198,3 +198,13 @@ def rename_genes(model: "Model", rename_dict: Dict[str, str]) -> None:
         if context:
             context(partial(model.genes.add, i))
             context(partial(setattr, i, "_model", model))
+        # the gene it was merged into takes its place in all groups
+        merged_into = model.genes.get_by_id(rename_dict[i.id])
+        for group in model.get_associated_groups(i):
+            group.remove_members([i])
+            if context:
+                context(partial(group.add_members, [i]))
+            if merged_into not in group.members:
+                group.add_members([merged_into])
+                if context:
+                    context(partial(group.remove_members, [merged_into]))
